@@ -119,6 +119,15 @@ def _inject_hand_domains(R):
                                                vals[7:12]]
     R.domains[('CurrentAttribute', 'attribute')] = [None] + vals[:14]
     R.domains[('NewAttribute', 'attribute')] = [None] + vals[:14]
+    # every standard attribute NAME (the name <-> tag table is crossed whenever a name list is written
+    # under KMIP 2.0), alone, all together in both orders, and next to a name the table lacks
+    names = [e[0] for e in enums.attribute_name_tag_table]
+    name_lists = [[n] for n in names] + [list(names), list(reversed(names)), [names[0], names[0]],
+                                         ['x-custom'], [names[3], 'x-custom']]
+    for c in ('GetAttributesRequestPayload', 'GetAttributeListResponsePayload'):
+        R.domains[(c, 'attribute_names')] = R.domains.get((c, 'attribute_names'), [None]) + name_lists
+    for c in ('DeleteAttributeRequestPayload', 'AttributeReference'):
+        R.domains[(c, 'attribute_name')] = R.domains.get((c, 'attribute_name'), [None]) + names
     # cross-field dependency: the object type must name the class of the managed object
     for c in ('RegisterRequestPayload', 'GetResponsePayload'):
         R.domains[(c, 'object_type')] = [None]
@@ -944,6 +953,61 @@ def check_message_parts(part):
                                 'status': st})
 
 
+def check_attribute_names(part):
+    """A refusal to encode is tolerated for structures in general (which fields a version defines is not
+    modelled per field) - but not for the standard attribute names: a name list naming an attribute
+    the KMIP version defines (mc/ref/versions.py) must be encodable under that version and come back."""
+    from mc.ref import versions as V
+    from kmip.core.messages import payloads as P
+    from kmip.core import objects as cobjects
+    # the library's own name <-> tag table (84 names; the AttributeType enumeration has 47 of them): a
+    # name my reference does not classify is one KMIP 2.0 added - demanded under 2.0 only
+    names = [e[0] for e in enums.attribute_name_tag_table]
+    makers = {
+        'GetAttributesRequestPayload': lambda n: P.GetAttributesRequestPayload('1', [n]),
+        'GetAttributeListResponsePayload': lambda n: P.GetAttributeListResponsePayload('1', [n]),
+        'GetAttributesRequestPayload+Name': lambda n: P.GetAttributesRequestPayload('1', ['Name', n]),
+    }
+    for v, kv in zip(W.VERSIONS, KV):
+        for n in names:
+            st = V.attribute_status(n, v)
+            if st == 'undefined' or (st == 'unknown' and v < (2, 0)):
+                continue
+            for cname, mk in makers.items():
+                part.count('roundtrips')
+                part.count('attribute_name_cases')
+                cls = getattr(P, cname.split('+')[0])
+                try:
+                    obj = mk(n)
+                    b = shapes.encode(obj, kv)
+                    r = cls()
+                    r.read(cutils.BytearrayStream(b), kmip_version=kv)
+                    ok = list(r.attribute_names) == list(obj.attribute_names) and shapes.encode(r, kv) == b
+                    why = 'decodes to %r' % (r.attribute_names,)
+                except Exception as e:   # noqa
+                    ok, why = False, '%s: %s' % (type(e).__name__, str(e)[:100])
+                part.count('status_ok' if ok else 'status_not-equal')
+                part.counters.setdefault('_out', set()).add(('names:' + cname, ok))
+                if not ok:
+                    part.violation("%s|attribute-name|%s" % (cname.split('+')[0], n),
+                                   "%s naming '%s' (defined under KMIP %s) under KMIP %s: %s" % (
+                                       cname, n, VNAME[kv], VNAME[kv], why),
+                                   {'attribute_names': True, 'name': n, 'version': VNAME[kv]})
+        if v >= (2, 0):
+            for n in names:
+                part.count('roundtrips')
+                try:
+                    t = enums.convert_attribute_name_to_tag(n)
+                    back = enums.convert_attribute_tag_to_name(t)
+                    ok, why = back == n, 'tag %s names %r' % (t, back)
+                except Exception as e:   # noqa
+                    ok, why = False, '%s: %s' % (type(e).__name__, str(e)[:100])
+                part.count('status_ok' if ok else 'status_not-equal')
+                if not ok:
+                    part.violation("name-tag-table|%s" % n, "attribute name '%s' <-> tag: %s" % (n, why),
+                                   {'attribute_names': True, 'name': n})
+
+
 # ---------------------------------------------------------------------------------------------
 def _worker(task):
     kind, arg, sweep = task
@@ -971,6 +1035,8 @@ def _worker(task):
             check_responses(part)
         elif kind == 'message_parts':
             check_message_parts(part)
+        elif kind == 'attribute_names':
+            check_attribute_names(part)
     finally:
         logging.disable(logging.NOTSET)
     out = part.as_dict()
@@ -1034,7 +1100,7 @@ def run(tier, seed):
     n = 28
     tasks = [('classes', names[i::n], True) for i in range(n)]
     tasks += [('primitives', None, True), ('requests', None, True), ('responses', None, True),
-              ('message_parts', None, True)]
+              ('message_parts', None, True), ('attribute_names', None, True)]
     outs = set()
     for part in pmap(_worker, tasks):
         outs.update(tuple(o) for o in part.pop('out', []))
@@ -1083,6 +1149,8 @@ def replay(doc):
             check_requests(part)
         elif 'message_part' in doc:
             check_message_parts(part)
+        elif 'attribute_names' in doc:
+            check_attribute_names(part)
         elif 'attribute' in doc:
             check_hand_attributes(part)
         else:
